@@ -395,6 +395,7 @@ class HistoryGen:
         self.meta = []              # free-form: expected outcome etc.
         self.parsed = []            # (slot, raw schema, defined, shared: parsed against a caller-supplied dict)
         self.raws = []              # raw schema OBJECTS handed to several calls of the history
+        self.families = []          # named types Color/Fx/Sub/Rec recurring across calls with DIFFERENT definitions
         self.hinted = []            # (schema argument, raw, [datum objects]) for '-type' hints, data objects reused across calls
         self.legacy = []            # (file bytes, valid reader schema): hand-built files with a mismatching default in the header
         self.dflt = []              # (schema argument, raw, defined): schemas with defaulted fields, shared by many calls
@@ -671,6 +672,82 @@ class HistoryGen:
             else:
                 recs = [dg.gen(wraw) for _ in range(rng.randrange(1, 4))]
                 self.emit({"api": "reader", "data": container(wraw, recs, defined, "null"), "reader_schema": arg}, "(CRead [])", expect="ok")
+
+    # --- the same full names, different definitions ---------------------------------------------------------
+    def redefined_variant(self, fam):
+        """one more definition of the family's names: enum symbols permuted / extended, fixed size changed,
+        record fields reordered / retyped - same full names"""
+        rng = self.rng
+        ns = fam["ns"]
+        syms = list(fam["symbols"])
+        rng.shuffle(syms)
+        if rng.random() < 0.3:
+            syms.insert(rng.randrange(len(syms) + 1), "Z%d" % rng.randrange(3))
+        sub_fields = [{"name": "p", "type": rng.choice(["long", "long", "string", "double"])}, {"name": "q", "type": "string"}]
+        if rng.random() < 0.5:
+            sub_fields.reverse()
+        enum = {"type": "enum", "name": "Color", "symbols": syms}
+        fixed = {"type": "fixed", "name": "Fx", "size": rng.choice([1, 2, 4, 4])}
+        sub = {"type": "record", "name": "Sub", "fields": sub_fields}
+        fields = [{"name": "e", "type": enum}, {"name": "f", "type": fixed}, {"name": "s", "type": sub},
+                  {"name": "e2", "type": {"type": "array", "items": "Color"}}, {"name": "n", "type": "long"}]
+        if rng.random() < 0.4:
+            fields.insert(rng.randrange(len(fields)), fields.pop(rng.randrange(3)))      # definition order changes too
+            # a reference must not precede its definition
+            names = [f["name"] for f in fields]
+            if names.index("e2") < names.index("e"):
+                fields.append(fields.pop(names.index("e2")))
+        raw = {"type": "record", "name": "Rec", "fields": fields}
+        if ns:
+            raw["namespace"] = ns
+        defined = {"Color": enum, "Fx": fixed, "Sub": sub, "Rec": raw}
+        arg = raw
+        k = rng.random()
+        if k < 0.5:                        # its own parse_schema call, its own named_schemas dict
+            out = self.fresh_slot("P")
+            call = {"api": "parse_schema", "schema": raw, "$out": out}
+            if k < 0.3:
+                nsl = self.fresh_slot("N")
+                self.emit({"api": "new_dict", "$out": nsl}, "")
+                call["named_schemas"] = {"$slot": nsl}
+            self.emit(call, "CParse", expect="ok")
+            self.parsed.append((out, raw, defined, False))
+            arg = {"$slot": out}
+        return arg, raw, defined
+
+    def c_redefined_names(self):
+        rng = self.rng
+        if not self.families or rng.random() < 0.15:
+            self.families.append({"ns": rng.choice(["", "", "ns", "a.b"]), "symbols": rng.sample(["A", "B", "C", "D"], rng.randrange(2, 5)),
+                                  "variants": []})
+        fam = rng.choice(self.families)
+        for _ in range(rng.choice([1, 2, 2])):
+            if len(fam["variants"]) < 2 or (len(fam["variants"]) < 5 and rng.random() < 0.4):
+                fam["variants"].append(self.redefined_variant(fam))
+            arg, raw, defined = rng.choice(fam["variants"])
+            k = rng.choice(["schemaless_writer", "schemaless_writer", "writer", "json_writer", "validate",
+                            "schemaless_reader", "reader", "json_reader"])
+            if k in ("schemaless_writer", "writer", "json_writer", "validate"):
+                recs = [DataGen(rng, "write", defined).gen(raw) for _ in range(rng.randrange(1, 3))]
+                if k == "schemaless_writer":
+                    self.emit({"api": k, "schema": arg, "record": recs[0], "kw": {}}, "CWrite", expect="ok")
+                elif k == "writer":
+                    self.emit({"api": k, "schema": arg, "records": recs, "kw": rng.choice([{}, {"validator": True}, {"codec": "deflate"}])}, "CWrite", expect="ok")
+                elif k == "json_writer":
+                    self.emit({"api": k, "schema": arg, "records": recs, "kw": {}}, "CJsonWrite", expect="ok")
+                else:
+                    self.emit({"api": k, "schema": arg, "datum": recs[0], "kw": {"raise_errors": rng.random() < 0.5}}, "CValidate", expect="ok")
+            else:
+                dg = DataGen(rng, "read", defined)
+                recs = [dg.gen(raw) for _ in range(rng.randrange(1, 3))]
+                if k == "schemaless_reader":
+                    self.emit({"api": k, "schema": arg, "data": encode(raw, recs[0], defined)}, "(CRead [])", expect="ok")
+                elif k == "reader":
+                    self.emit({"api": k, "data": container(raw, recs, defined, rng.choice(["null", "deflate"]))}, "(CRead [])", expect="ok")
+                else:
+                    has_float = has_type(raw, defined, is_floaty)
+                    text = "".join(json.dumps(to_json(raw, r, defined)) + "\n" for r in recs)
+                    self.emit({"api": k, "schema": arg, "text": text}, "(CJsonRead [])", expect="any" if has_float else "ok")
 
     # --- '-type' hints, the same datum objects handed to several calls -------------------------------
     def c_union_hints(self):
@@ -1022,7 +1099,7 @@ class HistoryGen:
 
     KINDS = [("c_parse", 5), ("c_schemaless_writer", 3), ("c_schemaless_reader", 3), ("c_read_truncated", 1), ("c_read_union_of_records", 2),
              ("c_defaults", 5), ("c_dangling_reference", 2), ("c_lazy_readers", 1),
-             ("c_union_hints", 2), ("c_legacy_defaults", 2),
+             ("c_union_hints", 2), ("c_legacy_defaults", 2), ("c_redefined_names", 4),
              ("c_read_decimal_focus", 3), ("c_writer", 3), ("c_reader", 2), ("c_reader_truncated", 1), ("c_validate", 3),
              ("c_canonical", 1), ("c_fingerprint", 1), ("c_json_writer", 2), ("c_json_reader", 1), ("c_generate", 1), ("c_load", 2)]
 
